@@ -328,6 +328,10 @@ def step (d : DState) (cmd : String) (args : List (List Char)) : DState × Strin
             | some b => "ok " ++ (if b then "true" else "false")
             | none => "ok other")
         | none => "bad-op")
+  | "g.multiply", [sn, k, names, policy] =>
+    (match natOf? k with
+     | some kk => gres d (G.multiplyD d.g (str sn) kk (if names.isEmpty then [] else (splitOnC ',' names).map str) (str policy))
+     | none => (d, "bad-op"))
   | "g.multiply", [sn, k, names] =>
     (match natOf? k with
      | some kk => gres d (G.multiply d.g (str sn) kk (if names.isEmpty then [] else (splitOnC ',' names).map str))
